@@ -15,7 +15,8 @@ trap 'git -C /repo checkout -- . >/dev/null 2>&1' EXIT
 cd /verif
 for ID in "$@"; do
     out=/verif/work/mutant-$ID.out
-    timeout ${MUTANT_TIMEOUT:-900} ./check $ID ${MUTANT_TIER:-quick} >$out 2>&1
+    # evidence of runs against a changed tree must not replace the evidence of the unchanged tree
+    VERIF_EVIDENCE_OUT=/verif/work/mutant-evidence-$ID.json timeout ${MUTANT_TIMEOUT:-900} ./check $ID ${MUTANT_TIER:-quick} >$out 2>&1
     rc=$?
     echo "$ID exit=$rc $(grep -m1 -E '^  refuted|^INCONCLUSIVE' $out | cut -c1-260)"
 done
